@@ -476,7 +476,7 @@ func (g *gen) step(prop string) []CStep {
 		case 0:
 			return []CStep{CStep{Op: "gopen", Group: r.Intn(3), A: r.Intn(8), B: r.Intn(8), N: r.Intn(3), T: []int64{0, 0, 2, 3, 5}[r.Intn(5)], Ghost: r.Chance(0.2)}}
 		case 1:
-			return []CStep{CStep{Op: "gchild", Group: r.Intn(3), N: r.Intn(4)}}
+			return []CStep{CStep{Op: "gchild", Group: r.Intn(3), N: r.Intn(16)}}
 		case 2:
 			return []CStep{CStep{Op: "grecv", Group: r.Intn(3), N: r.Intn(4), Kind: []string{"ok", "ok", "ok", "fail", "rollback"}[r.Intn(5)]}}
 		case 3:
@@ -496,7 +496,7 @@ func (g *gen) step(prop string) []CStep {
 			case 0:
 				return []CStep{CStep{Op: "gopen", Group: r.Intn(3), A: r.Intn(8), B: r.Intn(8), N: r.Intn(3), T: []int64{0, 2, 3}[r.Intn(3)], Ghost: r.Chance(0.2)}}
 			case 1, 2:
-				return []CStep{CStep{Op: "gchild", Group: r.Intn(3), N: r.Intn(4)}}
+				return []CStep{CStep{Op: "gchild", Group: r.Intn(3), N: r.Intn(16)}}
 			default:
 				return []CStep{CStep{Op: "grecv", Group: r.Intn(3), N: r.Intn(4), Kind: []string{"ok", "fail", "fail", "rollback"}[r.Intn(4)]}}
 			}
@@ -624,7 +624,7 @@ func (g *gen) step(prop string) []CStep {
 			case 5, 6:
 				if prop == "C01" {
 					if r.Chance(0.5) {
-						return []CStep{CStep{Op: "gchild", Group: r.Intn(3), N: r.Intn(4)}}
+						return []CStep{CStep{Op: "gchild", Group: r.Intn(3), N: r.Intn(16)}}
 					}
 					return []CStep{CStep{Op: "grecv", Group: r.Intn(3), N: r.Intn(4), Kind: []string{"ok", "ok", "fail", "rollback"}[r.Intn(4)]}}
 				}
@@ -639,7 +639,7 @@ func (g *gen) step(prop string) []CStep {
 			case 0:
 				return []CStep{CStep{Op: "gopen", Group: r.Intn(3), A: r.Intn(8), B: r.Intn(8), N: r.Intn(3), T: []int64{0, 1, 2, 3, 5}[r.Intn(5)], Ghost: r.Chance(0.2)}}
 			case 1, 2:
-				return []CStep{CStep{Op: "gchild", Group: r.Intn(3), N: r.Intn(4)}}
+				return []CStep{CStep{Op: "gchild", Group: r.Intn(3), N: r.Intn(16)}}
 			default:
 				return []CStep{CStep{Op: "grecv", Group: r.Intn(3), N: r.Intn(4), Kind: []string{"ok", "ok", "fail", "rollback"}[r.Intn(4)]}}
 			}
